@@ -9,7 +9,7 @@ from sa.canon import canon, same
 from sa.index import AnalysisError
 from sa.peval import PURE_FUNCS, Unknown, compile_term, peval
 from sa.report import Ctx
-from sa.sym import FALSE, NONE, Summary, bind_args, conjuncts, show, subst, walk
+from sa.sym import FALSE, NONE, TRUE, Summary, bind_args, conjuncts, show, subst, walk
 
 AFF = "soundevent.evaluation.affinity"
 OPS = "soundevent.geometry.operations"
@@ -57,8 +57,9 @@ class C06:
                 return self.type_set(node.id, _depth + 1)
             except AnalysisError:
                 return None
-        if not isinstance(node, (ast.Set, ast.List, ast.Tuple)) and not (isinstance(node, ast.Call) and ast.unparse(node.func) in ("set", "frozenset")):
-            return None
+        if not isinstance(node, (ast.Set, ast.List, ast.Tuple)) and not (isinstance(node, ast.Call) and ast.unparse(node.func) in ("set", "frozenset")
+                                                                        and node.args and hasattr(node.args[0], "elts")):
+            return self._type_set_by_engine(m, node)
         elts = node.elts if not isinstance(node, ast.Call) else (node.args[0].elts if node.args and hasattr(node.args[0], "elts") else [])
         out = set()
         for e in elts:
@@ -72,6 +73,21 @@ class C06:
             else:
                 return None
         return out
+
+    def _type_set_by_engine(self, m, node) -> Optional[set]:
+        """another spelling of the table (`frozenset(c.geom_type() for c in (A, B))`, a comprehension over a display): the engine's
+        value of the expression, when that is a display of constant type names"""
+        from sa.sym import Evaluator
+        try:
+            v = Evaluator(self.ctx.index, m, node, f"{m.name}:<table>", None).ev(node, TRUE)
+        except (AnalysisError, RecursionError):
+            return None
+        while v[0] == "call" and v[1] in (("builtin", "set"), ("builtin", "frozenset"), ("builtin", "tuple"), ("builtin", "list")) \
+                and len(v[2]) == 1 and not v[3]:
+            v = v[2][0]
+        if v[0] in ("set", "tuple", "list") and v[1] and all(x[0] == "const" and isinstance(x[1], str) for x in v[1]):
+            return {x[1] for x in v[1]}
+        return None
 
     # ------------------------------------------------------------------ R06.2
     def check_sets(self):
@@ -116,13 +132,29 @@ class C06:
             a, b = ("param", s.params[0]), ("param", s.params[1])
             tmp = ("param", "__swap__")
             nc = ctx.normcalls
-            base = {(e.kind, canon(nc(e.live), proven), canon(nc(e.term), proven)) for e in s.returns + s.raises}
-            swapped = set()
-            for e in s.returns + s.raises:
-                live = subst(subst(subst(e.live, {a: tmp}), {b: a}), {tmp: b})
-                term = subst(subst(subst(e.term, {a: tmp}), {b: a}), {tmp: b})
-                swapped.add((e.kind, canon(nc(live), proven), canon(nc(term), proven)))
             site = f"{self.file}:{s.node.lineno} {fname}"
+            if fname == "compute_affinity_in_time":
+                reg = self.time_iou_by_regions(s)
+                if reg is not None and reg[0]:
+                    proven = proven + (("global", f"{AFF}:{fname}", "func"),)
+                    ctx.ok("R06.1", site, f"equals the (symmetric) interval IoU on all {self._regions_n} orderings of the four time bounds")
+                    continue
+                if reg is not None:
+                    continue  # the time-branch rule reports the deviating ordering (R06.4)
+
+            def merged(events, swap):
+                """outcomes with one value reached on several paths count once, under the disjunction of their conditions"""
+                by = {}
+                for e in events:
+                    live, term = e.live, e.term
+                    if swap:
+                        live = subst(subst(subst(live, {a: tmp}), {b: a}), {tmp: b})
+                        term = subst(subst(subst(term, {a: tmp}), {b: a}), {tmp: b})
+                    by.setdefault((e.kind, canon(nc(term), proven)), []).append(nc(live))
+                from sa.sym import OR as OR_
+                return {(k, canon(OR_(*lvs), proven), t) for (k, t), lvs in by.items()}
+
+            base, swapped = merged(s.returns + s.raises, False), merged(s.returns + s.raises, True)
             if base == swapped:
                 # a function proven symmetric is an order-free callee for its callers
                 proven = proven + (("global", f"{AFF}:{fname}", "func"),)
@@ -134,6 +166,104 @@ class C06:
                         f"{fname} is not symmetric in its two geometries: the outcome `{what}` changes when the arguments "
                         f"are swapped (e.g. only one geometry is buffered, or an extent of one side is used twice)",
                         s.node.lineno)
+
+    def time_iou_by_regions(self, ts: Summary):
+        """compute_affinity_in_time as a function of the four time bounds (s1, e1, s2, e2) = compute_bounds(g)[0], [2]: where its
+        return paths only compare and add / subtract / divide these four numbers (max / min / abs included), the function is
+        piecewise rational over the orderings of the four values -- it is evaluated on every weak ordering with s1 <= e1 and s2 <= e2
+        (5 sample points each, dyadic values so that sums are exact) and compared with the intersection-over-union of the two
+        intervals (0 where the union is 0).  -> None: outside that fragment; else (ok, message, witness)."""
+        if getattr(self, "_regions_cache", None) is not None and self._regions_cache[0] is ts:
+            return self._regions_cache[1]
+        import itertools
+        a, b = ("param", ts.params[0]), ("param", ts.params[1])
+        cb = ("global", f"{OPS}:compute_bounds", "func")
+        V = [("param", f"__{n}__") for n in ("s1", "e1", "s2", "e2")]
+        leaves = {}
+        for g, (vs, ve) in ((a, (V[0], V[1])), (b, (V[2], V[3]))):
+            for B in (("call", cb, (g,), ()), ("call", cb, (), (("geometry", g),))):
+                leaves[("sub", B, ("const", 0))] = vs
+                leaves[("sub", B, ("const", 2))] = ve
+
+        def abstract(t):
+            if not isinstance(t, tuple) or not t:
+                return t
+            if t in leaves:
+                return leaves[t]
+            return tuple(abstract(x) if isinstance(x, tuple) else x for x in t)
+
+        outcomes = [(e.kind, abstract(e.live), abstract(e.term), e) for e in ts.returns + ts.raises]
+        allowed = set(V)
+        for _, lv, tm, _ in outcomes:
+            for x in list(walk(lv)) + list(walk(tm)):
+                if x[0] == "param" and x not in allowed:
+                    self._regions_cache = (ts, None)
+                    return None
+                if x[0] in ("global", "attr", "elem", "ext", "alloc", "lambda", "comp") or (x[0] == "call" and x[1] not in PURE_FUNCS):
+                    if not (x[0] in ("builtin", "ext") and len(x) == 2):
+                        self._regions_cache = (ts, None)
+                        return None
+        result = (True, f"equals the interval IoU on every ordering of the four time bounds", None)
+        n_regions = 0
+        gaps = ((1.0, 2.0, 0.5, 3.25), (0.125, 4.0, 1.5, 0.75), (2.5, 0.25, 0.25, 6.0), (1.0, 1.0, 1.0, 1.0), (7.0, 0.375, 2.125, 0.5))
+        for ranks in itertools.product(range(4), repeat=4):
+            if sorted(set(ranks)) != list(range(len(set(ranks)))) or ranks[0] > ranks[1] or ranks[2] > ranks[3]:
+                continue
+            n_regions += 1
+            for k, gp in enumerate(gaps):
+                levels, cur = [], 0.375 * (k + 1)
+                for r in range(4):
+                    cur += gp[r]
+                    levels.append(cur)
+                vals = [levels[r] for r in ranks]
+                env = dict(zip(V, vals))
+                s1, e1, s2, e2 = vals
+                inter = max(0.0, min(e1, e2) - max(s1, s2))
+                union = (e1 - s1) + (e2 - s2) - inter
+                want = 0.0 if union == 0 else inter / union
+                alive = []
+                undecided = False
+                for kind, lv, tm, e in outcomes:
+                    on = True
+                    for c in conjuncts(lv):
+                        v = peval(c, env)
+                        if v[0] != "const":
+                            if any(x[0] == "bin" and x[1] in ("/", "//", "%") for x in walk(v) if isinstance(x, tuple)):
+                                on = None
+                                break
+                            undecided = True
+                            break
+                        if not v[1]:
+                            on = False
+                            break
+                    if undecided:
+                        break
+                    if on is None or on:
+                        alive.append((kind, tm, e, on is None))
+                if undecided or len(alive) != 1:
+                    self._regions_cache = (ts, None)
+                    return None
+                kind, tm, e, div0 = alive[0]
+                where = {"geometry1": [s1, e1], "geometry2": [s2, e2]}
+                if kind == "raise":
+                    result = (False, f"raises for the time extents {where} (the intersection-over-union there is {want})", (e, where))
+                    break
+                v = peval(tm, env)
+                if div0 or v[0] != "const":
+                    if div0 or any(x[0] == "bin" and x[1] in ("/", "//") for x in walk(v) if isinstance(x, tuple)):
+                        result = (False, f"divides by zero for the time extents {where} (two zero-extent geometries at the same instant, or "
+                                         f"union 0): the zero-union guard is missing", (e, where))
+                        break
+                    self._regions_cache = (ts, None)
+                    return None
+                if isinstance(v[1], bool) or not isinstance(v[1], (int, float)) or v[1] != want:
+                    result = (False, f"gives {v[1]!r} for the time extents {where}; the intersection-over-union of the two intervals is {want!r}", (e, where))
+                    break
+            if not result[0]:
+                break
+        self._regions_n = n_regions
+        self._regions_cache = (ts, result)
+        return result
 
     def check_body_inlined(self, s, g1, g2, tb, fb, site):
         """compute_affinity without the _prepare_geometry helper: the same obligations on the written-out form"""
@@ -243,6 +373,11 @@ class C06:
         raw_branch = canon(("or", (("cmp", "in", ("attr", g1, "type"), TIME), ("cmp", "in", ("attr", g2, "type"), TIME))))
         tsym = ("global", f"{AFF}:compute_affinity_in_time", "func")
         trets = [r for r in s.returns if r.term[0] == "call" and r.term[1] == tsym]
+        if len(trets) > 1 and len({r.term for r in trets}) == 1:
+            # one outcome reached by several guard clauses (`if g1 is time-only: return t` / `if g2 is time-only: return t`): taken
+            # under the disjunction of their conditions
+            from sa.sym import OR as OR_, Event
+            trets = [Event("return", OR_(*[r.live for r in trets]), trets[0].term, trets[0].node, (), trets[0].idx)]
         if len(trets) == 1 and canon(trets[0].live) in (branch, raw_branch) and set(trets[0].term[2]) == {P1, P2}:
             ctx.ok("R06.2", site, "time-only branch taken iff either (prepared) geometry is time-only; both prepared geometries forwarded")
         else:
@@ -347,6 +482,18 @@ class C06:
         MAX_, MIN_ = ("builtin", "max"), ("builtin", "min")
         tinter = ("call", MAX_, (("const", 0), ("bin", "-", ("call", MIN_, (e1, e2), ()), ("call", MAX_, (s1, s2), ()))), ())
         tunion = ("bin", "-", ("bin", "+", ("bin", "-", e1, s1), ("bin", "-", e2, s2)), tinter)
+        reg = self.time_iou_by_regions(ts)
+        if reg is not None:
+            tsite = f"{self.file}:{ts.node.lineno} compute_affinity_in_time"
+            if reg[0]:
+                ctx.ok("R06.4", tsite, f"intersection / (extent1 + extent2 - intersection), 0 where the union is 0: {reg[1]} ({self._regions_n} orderings x 5 points)")
+                ctx.ok("R06.4", tsite, "union 0 -> returns 0 without dividing (the orderings with two zero extents)")
+                ctx.ok("R06.5", tsite, "time quotient of interval lengths: never above 1 on any ordering")
+            else:
+                e_, where = reg[2]
+                ctx.bad("R06.4", self.file, "compute_affinity_in_time", f"{e_.kind} {show(e_.term)[:80]}",
+                        f"compute_affinity_in_time {reg[1]}", e_.lineno, witness=where)
+            return
         self.check_iou("compute_affinity_in_time", ts, ts.returns, tinter, tunion, clamp_required=False)
 
     @staticmethod
